@@ -23,12 +23,21 @@ func ruleRowIndicators(c *Ctx) {
 		}
 		c.Fn(side.fn)
 		rets := returnsOf(fn)
-		if len(rets) != 1 || len(fn.Params) != 4 {
-			c.Undecided(R, side.fn, fn.Pos(), "expected one return and parameters (rowNum, rows, columns, securityLevel)")
+		if len(rets) != 1 {
+			c.Undecided(R, side.fn, fn.Pos(), "expected one return")
 			continue
 		}
-		n := NewNormer(c.P)
-		n.BindParams(fn, "row", "rows", "cols", "level")
+		// the roles (row, rows, cols, level) are those of the call in EncodeWithColor: the helper's
+		// parameters - scalars or fields of a struct - resolve through that calling context
+		n := pdfIndicatorContext(c, fn)
+		if n == nil {
+			if len(fn.Params) != 4 {
+				c.Undecided(R, side.fn, fn.Pos(), "not called once from EncodeWithColor and not of the form (rowNum, rows, columns, securityLevel)")
+				continue
+			}
+			n = NewNormer(c.P)
+			n.BindParams(fn, "row", "rows", "cols", "level")
+		}
 		// find the phi feeding the result and the scrutinee (row % 3)
 		var phi *ssa.Phi
 		var find func(v ssa.Value, d int)
@@ -82,4 +91,35 @@ func ruleRowIndicators(c *Ctx) {
 			c.Check(R, key, pos, pEqual(got, want), want.String(), got.String())
 		}
 	}
+}
+
+// pdfIndicatorContext: a normaliser in which the parameters of a row-indicator function resolve to
+// the roles of its single call site in pdf417.EncodeWithColor (row = index of the row loop, rows and
+// cols = results of calcDimensions, level = the security level parameter).
+func pdfIndicatorContext(c *Ctx, fn *ssa.Function) *Normer {
+	enc := c.P.Func("pdf417.EncodeWithColor")
+	if enc == nil || len(enc.Params) != 3 {
+		return nil
+	}
+	sites := c.P.deepCallsTo(enc, fn)
+	if len(sites) != 1 {
+		return nil
+	}
+	s := sites[0]
+	n := NewNormer(c.P)
+	n.BindParams(enc, "data", "level", "color")
+	bindCalls(n, c.P, enc, nil, map[string][2]string{"pdf417.calcDimensions": {"cols", "rows"}})
+	// the row number: index of the loop around the call (in the function that contains it)
+	call := s.Ins.(*ssa.Call)
+	h := enclosingLoopHeader(call.Block())
+	if h == nil {
+		return nil
+	}
+	idx, _, init, ok := loopIndex(h)
+	if !ok || init != 0 {
+		return nil
+	}
+	n.Bind[idx] = "row"
+	n.Ctx = append(append([]ssa.CallInstruction{}, s.Path...), call)
+	return n
 }
